@@ -57,7 +57,7 @@ def run(tier, seed, replay=None):
     chk = Check("C03", tier, seed)
     work = vlib.scratch("c03")
     rnd = random.Random(seed)
-    builds = [("m1d0", "dyn", 1), ("m1d1", "over", 1)] if tier == "quick" else [("m1d0", "dyn", 1), ("m1d1", "over", 1), ("m0d0", "dyn", 0), ("m2d0", "dyn", 2)]
+    builds = [("m1d0", "dyn", 1), ("m1d1", "over", 1), ("m0d0", "dyn", 0), ("m2d0", "dyn", 2)]      # every contact model in both tiers (the integrator has one branch per model)
     dumps = {}
     nrep = 0
     for variant, model, contact in builds:
